@@ -11,6 +11,11 @@ trap 'git -C /repo checkout -- . ; rm -rf /verif/evidence; mkdir -p /verif/evide
 cd /verif
 for c in "$@"; do
   echo "=== $c with $(basename $(dirname $patch))/$(basename $patch)"
-  ./check $c quick 2>&1 | grep -E "VIOLATION|KNOWN-FINDING|quick:|^  \(" | head -8
-  echo "exit=${PIPESTATUS[0]}"
+  ./check $c quick > /tmp/try_seed.$$.log 2>&1
+  rc=$?
+  grep -E "VIOLATION|KNOWN-FINDING|^  \(" /tmp/try_seed.$$.log | head -8
+  grep -o "^  ([a-zA-Z0-9:_-]*)" /tmp/try_seed.$$.log | sort | uniq -c | tr '\n' ' '; echo
+  grep -E "quick:" /tmp/try_seed.$$.log
+  rm -f /tmp/try_seed.$$.log
+  echo "exit=$rc"
 done
